@@ -77,9 +77,9 @@ class P:
     wrap changes the value).  u64 arithmetic is left unwrapped: `energy_formula` shows it stays below 2^64
     for every transaction that can exist."""
 
-    def __init__(self, toks, known, local=None):
-        # known: name -> ("const",) | ("fn", [param types]);  local: name -> type
-        self.t, self.i, self.known, self.free, self.local = toks, 0, known, [], dict(local or {})
+    def __init__(self, toks, known, local=None, hint=None):
+        # known: name -> ("const",) | ("fn", [param types]);  local: name -> type;  hint: types of free identifiers
+        self.t, self.i, self.known, self.free, self.local, self.hint = toks, 0, known, [], dict(local or {}), dict(hint or {})
 
     def peek(self, k=0):
         return self.t[self.i + k] if self.i + k < len(self.t) else (None, None)
@@ -101,7 +101,7 @@ class P:
             raise TranslateError("unknown path %s" % name)
         if name not in self.free:
             self.free.append(name)
-        return name, "any"
+        return name, self.hint.get(name, "any")
 
     @staticmethod
     def binop(s1, t1, op, s2, t2):
@@ -308,15 +308,18 @@ def rust_ty(t):
     raise TranslateError("unsupported parameter type %s" % t)
 
 
-def ty(t):
-    t = t.strip()
-    if t in ("u64", "u32", "u16", "u8"):
+def gallina_ty(t):
+    if t in WIDTH:
         return "N"
-    if t == "CredentialType":
+    if t == "credential_type":
         return "credential_type"
-    if t == "&[u16]":
-        return "list N"
-    raise TranslateError("unsupported parameter type %s" % t)
+    if t.startswith("list "):
+        return "list " + gallina_ty(t[5:])
+    if t == "bool":
+        return "bool"
+    if t == "string":
+        return "string"
+    raise TranslateError("no Gallina type for %s" % t)
 
 
 def translate(rs_text):
@@ -430,14 +433,30 @@ def translate(rs_text):
         if not re.search(r"\bnum_sigs\b", fields):
             raise TranslateError("builder %s: num_sigs not passed" % name)
         e = re.search(r"energy\s*:\s*(.+?)\s*(?:,\s*num_sigs\s*,?\s*$|,\s*$|$)", fields.strip(), flags=re.S)
+        # Rust types of the identifiers the energy expression may mention: integer parameters of the builder,
+        # and locals bound by `let x = <..> as uN;` (a list when produced by `.map(..).collect()`)
+        hint = {}
+        sig = construct[m.end():construct.index("->", m.end())]
+        for pm in re.finditer(r"([a-z_][a-z0-9_]*)\s*:\s*(u8|u16|u32|u64|Energy)\b", sig):
+            hint[pm.group(1)] = rust_ty(pm.group(2))
+        for lm in re.finditer(r"let ([a-z_][a-z0-9_]*) = (.+?);", body, flags=re.S):
+            cast = re.search(r"\bas (u8|u16|u32|u64)\b", lm.group(2))
+            if cast:
+                hint[lm.group(1)] = ("list " if ".map(" in lm.group(2) else "") + cast.group(1)
+            elif re.search(r"\.size\(\)\s*$", lm.group(2).strip()):
+                hint[lm.group(1)] = "u64"
         params = []
         if e:
             expr = e.group(1).strip().rstrip(",")
-            p = P(tokens(expr), known)
-            s = p.expr()
+            p = P(tokens(expr), known, hint=hint)
+            s, t = p.expr()
             p.done()
-            params = [(x, "N" if x != "num_cred_keys" or name != "update_credentials" else "list N") for x in p.free]
-            # `&num_cred_keys` is a slice in update_credentials
+            if t not in ("u64", "lit", "any"):
+                raise TranslateError("builder %s: energy expression of type %s" % (name, t))
+            for x in p.free:
+                if x not in hint:
+                    raise TranslateError("builder %s: cannot type the identifier %s" % (name, x))
+            params = [(x, gallina_ty(hint[x])) for x in p.free]
         else:
             # shorthand `energy`: a parameter, or a local `let energy = ...`
             le = re.search(r"let energy = (.+?);", body, flags=re.S)
@@ -448,6 +467,7 @@ def translate(rs_text):
                 a, b = mm2.group(1).split("::")[-1], mm2.group(2).split("::")[-1]
                 if a not in known or b not in known:
                     raise TranslateError("builder %s: unknown cost" % name)
+                a, b = a, b
                 s, params = "if with_keys then %s else %s" % (a, b), [("with_keys", "bool")]
             elif re.match(r"token_operations_txn_energy\(&operations\)", le.group(1).strip()):
                 s, params = "token_operations_energy ops", [("ops", "list string")]
